@@ -61,7 +61,8 @@ func Semantic(j *job.Job, s *job.Sink) {
 		fn := names[r.Intn(len(names))]
 		t := texts[fn]
 		fault, want := "", []string{}
-		repl := func(old, new string) bool {
+		desig := -1 // byte offset of the designated statement's keyword in t, when known
+		repl := func(old, new, kw string) bool {
 			var idxs []int
 			for i := 0; ; {
 				k := strings.Index(t[i:], old)
@@ -76,35 +77,69 @@ func Semantic(j *job.Job, s *job.Sink) {
 			}
 			k := idxs[r.Intn(len(idxs))]
 			t = t[:k] + new + t[k+len(old):]
+			if kw != "" {
+				desig = k + strings.Index(new, kw)
+			}
 			return true
 		}
-		switch r.Intn(7) {
+		// prefixes this file can use
+		ownPfx, impPfx := "", []string{}
+		if m := regexp.MustCompile(`(?m)^\s*prefix (\S+);`).FindStringSubmatch(t); m != nil {
+			ownPfx = m[1]
+		}
+		if m := regexp.MustCompile(`belongs-to \S+ \{ prefix (\S+); \}`).FindStringSubmatch(t); m != nil {
+			ownPfx = m[1]
+		}
+		for _, m := range regexp.MustCompile(`import \S+ \{ prefix (\S+); \}`).FindAllStringSubmatch(t, -1) {
+			impPfx = append(impPfx, m[1])
+		}
+		switch r.Intn(12) {
 		case 0:
-			if repl("type string;", "type nosuchtype;") {
+			if repl("type string;", "type nosuchtype;", "type") {
 				fault, want = "bad type name", []string{"type"}
 			}
 		case 1:
-			if repl("uses ", "uses nosuchgrp; uses ") {
+			if repl("uses ", "uses nosuchgrp; uses ", "uses") {
 				fault, want = "unknown grouping", []string{"uses"}
 			}
 		case 2:
-			if repl("type int8;", "type int8 { range \"1..500\"; }") {
+			if repl("type int8;", "type int8 { range \"1..500\"; }", "range") {
 				fault, want = "bad range", []string{"range"}
 			}
 		case 3:
-			if repl("type string;", "type string { length \"5..2\"; }") {
+			if repl("type string;", "type string { length \"5..2\"; }", "length") {
 				fault, want = "bad length", []string{"length"}
 			}
 		case 4:
-			if repl("type boolean;", "type enumeration { enum a { value 1; } enum b { value 1; } }") {
+			if repl("type boolean;", "type enumeration { enum a { value 1; } enum b { value 1; } }", "enum b") {
 				fault, want = "bad enum value", []string{"enum"}
 			}
 		case 5:
-			if repl("type string;", "") {
+			if repl("type string;", "", "") {
 				fault, want = "missing mandatory substatement", []string{"leaf", "leaf-list", "typedef"}
 			}
+		case 6:
+			if len(impPfx) > 0 && repl("type string;", "type "+impPfx[r.Intn(len(impPfx))]+":nosuchtype;", "type") {
+				fault, want = "bad type name behind an import prefix", []string{"type"}
+			}
+		case 7:
+			if ownPfx != "" && repl("type string;", "type "+ownPfx+":nosuchtype;", "type") {
+				fault, want = "bad type name behind the own prefix", []string{"type"}
+			}
+		case 8:
+			if len(impPfx) > 0 && repl("uses ", "uses "+impPfx[r.Intn(len(impPfx))]+":nosuchgrp; uses ", "uses") {
+				fault, want = "unknown grouping behind an import prefix", []string{"uses"}
+			}
+		case 9:
+			if repl("type boolean;", "type bits { bit a { position 7; } bit b { position 4294967296; } }", "bit b") {
+				fault, want = "bad bit position", []string{"bit"}
+			}
+		case 10:
+			if repl("type int8;", "type int8 { range \"5..1\"; }", "range") {
+				fault, want = "range out of order", []string{"range"}
+			}
 		default:
-			if repl("type uint32;", "type uint32; frobnicate 1;") {
+			if repl("type uint32;", "type uint32; frobnicate 1;", "frobnicate") {
 				fault, want = "unknown substatement", []string{"frobnicate"}
 			}
 		}
@@ -131,6 +166,14 @@ func Semantic(j *job.Job, s *job.Sink) {
 			continue
 		}
 		hit := false
+		desigPos := ""
+		if desig >= 0 {
+			// line and character column (both 1-based) of the designated keyword
+			head := t[:desig]
+			line := 1 + strings.Count(head, "\n")
+			col := 1 + len([]rune(head[strings.LastIndex(head, "\n")+1:]))
+			desigPos = fmt.Sprintf("%d:%d", line, col)
+		}
 		for _, e := range errs {
 			for _, m := range posInErr.FindAllStringSubmatch(e.Error(), -1) {
 				s.Count("positions_checked", 1)
@@ -140,14 +183,14 @@ func Semantic(j *job.Job, s *job.Sink) {
 					continue
 				}
 				for _, w := range want {
-					if kw == w && m[1] == fn {
+					if kw == w && m[1] == fn && (desigPos == "" || desigPos == m[2]+":"+m[3]) {
 						hit = true
 					}
 				}
 			}
 		}
 		if !hit {
-			s.Violation(c, j.CaseID(c), "C16.semantic", "designated-statement-not-named", fmt.Sprintf("%s: no error names the %v statement; first error %q", fault, want, errs[0].Error()), cs, map[string]any{"fault": fault})
+			s.Violation(c, j.CaseID(c), "C16.semantic", "designated-statement-not-named", fmt.Sprintf("%s: no error names the %v statement at %s:%s; first error %q", fault, want, fn, desigPos, errs[0].Error()), cs, map[string]any{"fault": fault})
 		}
 		s.Count("fault:"+fault, 1)
 	}
